@@ -163,7 +163,8 @@ impl<R: BufRead> BufRead for LiteralDataReader<R> {
             Self::Body { buffer, .. } | Self::Done { buffer, .. } => {
                 buffer.advance(amt);
             }
-            Self::Error => panic!("LiteralReader errored"),
+            // `consume` after an error must not panic (the reader keeps returning `Err`)
+            Self::Error => {}
         }
     }
 }
